@@ -256,4 +256,4 @@ def run_case(case):
     counters["contract_evaluations"] = _st["contract"] - c0
     if witness:
         return dict(verdict="violated", nt=nts, counters=counters, mech=witness["first"]["kind"], witness=witness)
-    return dict(verdict="held", nt=nts, counters=counters, sample=dict(case=case))
+    return dict(verdict="held", nt=nts[:40], counters=counters, sample=dict(case=case))  # counted conservatively: at most 40 scripts per case
